@@ -335,6 +335,9 @@ func (sp *specParser) expr(e ast.Expr) (*Sym, error) {
 		case token.NOT:
 			return sNot(v), nil
 		case token.SUB:
+			if i, ok := symIntC(v); ok {
+				return sInt(-i), nil
+			}
 			return sBin("-", sInt(0), v), nil
 		}
 	case *ast.BinaryExpr:
